@@ -76,23 +76,21 @@ func runCase(ctx context.Context, s *hx.Session, tc tcase) error {
 		s.Hit("unfinished")
 	}
 	// ---- direct oracle: after every finished transaction, Count() == number of items a scan returns ----
+	prevOff := int64(0)
 	for i := range o.Counts {
-		if o.Counts[i] == int64(len(o.Items[i])) {
-			continue
+		off := o.Counts[i] - int64(len(o.Items[i]))
+		newOff := off - prevOff
+		prevOff = off
+		if newOff == 0 {
+			continue // equal, or a mismatch already reported where it appeared
 		}
 		detail := fmt.Sprintf("init=%s writers=%v sched=%v results=%v: after writer %d the cold reader sees count=%d items=%v", occ4.InitArg(tc.sc.Init), tc.sc.Writers, tc.sched, o.Results, o.After[i], o.Counts[i], o.Items[i])
 		sig := "C06/count-differs"
-		// which mechanism: look at the transaction that finished right before the first bad dump
-		first := i == 0 || o.Counts[i-1] == int64(len(o.Items[i-1]))
+		// which mechanism: look at the transaction that finished right before the mismatch appeared
 		w := o.After[i]
 		switch {
 		case tc.root:
 			sig = "C06/first-root-race"
-		case !first:
-			sig = "C06/count-differs-still" // the mismatch was there before this transaction
-			if o.Counts[i]-int64(len(o.Items[i])) == o.Counts[i-1]-int64(len(o.Items[i-1])) {
-				continue // unchanged offset: already reported where it appeared
-			}
 		case w >= 0 && o.Results[w] == "err:injected" && tc.sc.Writers[w].Fault != nil && tc.sc.Writers[w].Fault.Name == "sr.Update" && tc.sc.Writers[w].Fault.Kind == txk.FailAfter:
 			sig = "C06/count-delta-kept-after-failed-commit"
 		}
